@@ -78,6 +78,8 @@ pub struct Stats {
     pub states: u64,
     pub transitions: u64,
     pub merges_checked: u64,
+    /// paths that reached an already seen bookkeeping key in a different implementation state (kept apart)
+    pub unmerged_paths: u64,
     pub straddles: u64,
     pub tails: u64,
     pub half_pending_transitions: u64,
@@ -206,11 +208,13 @@ pub fn explore(mk: &dyn Maker, stream: &Stream, prefix: &[Op], start: Pos, alpha
                             _ => None,
                         };
                         if eq == Some(false) || img == Some(false) {
-                            out.push(Violation {
-                                key: format!("{}:merge:{}", info.name, op.short()),
-                                what: format!("{}: histories {} and {} consume the same words but leave different generator states (== {:?}, image equal {:?})", info.name, crate::ops::ops_short(&hist), crate::ops::ops_short(rep), eq, img),
-                                replay: json!({"kind":"history-pair","maker":mk.describe(),"type":info.name,"ops_a":ops_json(&hist),"ops_b":ops_json(rep)}),
-                            });
+                            // not a verdict: the two paths consumed the same words and both continue the stream
+                            // correctly as far as the look-ahead goes, but the generator is represented
+                            // differently (or == / the snapshot say so). They are not merged: this path is
+                            // explored as a state of its own, so anything the difference leads to shows as a
+                            // projection or future violation further down.
+                            stats.unmerged_paths += 1;
+                            next.push(StateRec { pos: np, history: hist });
                         }
                     }
                     None => {
